@@ -75,7 +75,9 @@ func safeVerify(ps *prover.ProvingSystem, mode string, h *big.Int, pr *prover.Pr
 // c07Eval returns the list of (key, message) violations for one parameter set.
 func c07Eval(cs *c07Case, st *c07Stats, otherHashes []*big.Int) [][2]string {
 	var out [][2]string
-	bad := func(k, m string) { out = append(out, [2]string{fmt.Sprintf("%s|%s d=%d b=%d|%s", k, cs.Mode, cs.D, cs.B, cs.Why), m}) }
+	bad := func(k, m string) {
+		out = append(out, [2]string{fmt.Sprintf("%s|%s d=%d b=%d|%s", k, cs.Mode, cs.D, cs.B, cs.Why), m})
+	}
 	ps, err := getSystem(cs.Mode, cs.D, cs.B, 0)
 	if err != nil {
 		return [][2]string{{"setup", err.Error()}}
